@@ -10,7 +10,10 @@ import (
 	"os"
 	"path/filepath"
 	"runtime"
+	"runtime/debug"
 	"strings"
+	"sync"
+	"sync/atomic"
 	"testing"
 	"time"
 
@@ -933,6 +936,116 @@ var kC08Raw = register(&Kind[c08Raw]{
 	},
 })
 
+// ---- kind: filterload storm -----------------------------------------------------------------
+// A peer may send a new filterload (any size within the wire limits), or a filterclear, at any moment, while
+// the node matches relayed data against the filter on other goroutines.  Nothing may panic.
+
+type c08Storm struct {
+	Sizes   []int    `json:"sizes"` // 0 = filterclear (Unload)
+	K       uint32   `json:"k"`
+	Tweak   uint32   `json:"tweak"`
+	Item    HexBytes `json:"item"`
+	Iters   int      `json:"iters"`
+	Readers int      `json:"readers"`
+}
+
+func evalC08Storm(c c08Storm, o *Obs) error {
+	if len(c.Sizes) < 1 || len(c.Sizes) > 8 || c.K > wire.MaxFilterLoadHashFuncs || c.Iters < 1 || c.Iters > 200000 || c.Readers < 1 || c.Readers > 16 {
+		return hbug("bad storm")
+	}
+	for _, n := range c.Sizes {
+		if n < 0 || n > wire.MaxFilterLoadFilterSize {
+			return hbug("filter-load outside the wire limits")
+		}
+	}
+	o.NT()
+	o.Class("C08:filterload-storm")
+	f := bloom.LoadFilter(nil)
+	var h chainhash.Hash
+	copy(h[:], c.Item)
+	op := wire.NewOutPoint(&h, c.Tweak)
+	var mu sync.Mutex
+	var first error
+	guard := func() {
+		if r := recover(); r != nil {
+			st := string(debug.Stack())
+			mu.Lock()
+			if first == nil {
+				if strings.Contains(st, "github.com/gcash/bchutil") || strings.Contains(st, "/repo/") {
+					first = fmt.Errorf("panic while a peer re-loads the filter with sizes %v (0 = clear) and %d goroutines match against it: %v\n%s", c.Sizes, c.Readers, r, trimStack(st))
+				} else {
+					first = hbug("panic in harness: %v\n%s", r, trimStack(st))
+				}
+			}
+			mu.Unlock()
+		}
+	}
+	var wg sync.WaitGroup
+	var stop atomic.Bool
+	wd := time.AfterFunc(c08HangSeconds*time.Second, func() {
+		if outDir != "" {
+			os.WriteFile(filepath.Join(outDir, "hang.txt"), []byte("filter operations did not return within 90 s while the filter was being re-loaded"), 0o644)
+		}
+		fmt.Printf("HANG property=C08 filterload storm did not return\n")
+		os.Exit(3)
+	})
+	defer wd.Stop()
+	for r := 0; r < c.Readers; r++ {
+		r := r
+		wg.Add(1)
+		go func() {
+			defer wg.Done()
+			defer guard()
+			for !stop.Load() {
+				switch r % 4 {
+				case 0:
+					f.Matches(c.Item)
+				case 1:
+					f.MatchesOutPoint(op)
+				case 2:
+					f.Add(c.Item)
+				case 3:
+					f.IsLoaded()
+					f.MsgFilterLoad()
+				}
+			}
+		}()
+	}
+	wg.Add(1)
+	go func() {
+		defer wg.Done()
+		defer guard()
+		defer stop.Store(true)
+		for i := 0; i < c.Iters; i++ {
+			n := c.Sizes[i%len(c.Sizes)]
+			if n == 0 {
+				f.Unload()
+			} else {
+				f.Reload(wire.NewMsgFilterLoad(make([]byte, n), c.K, c.Tweak, wire.BloomUpdateAll))
+			}
+			mu.Lock()
+			failed := first != nil
+			mu.Unlock()
+			if failed {
+				return
+			}
+		}
+	}()
+	wg.Wait()
+	return first
+}
+
+var kC08Storm = register(&Kind[c08Storm]{Prop: "C08", Name: "filterload-storm", Eval: evalC08Storm,
+	Gen: func(t *rapid.T) c08Storm {
+		c := c08Storm{K: uint32(rapid.SampledFrom([]int{1, 3, 50}).Draw(t, "k")), Tweak: rapid.Uint32().Draw(t, "tweak"),
+			Item: genBytes(t, "item", 1, 40), Iters: rapid.IntRange(2000, 20000).Draw(t, "iters"), Readers: rapid.IntRange(2, 8).Draw(t, "readers")}
+		n := rapid.IntRange(2, 5).Draw(t, "nsizes")
+		for i := 0; i < n; i++ {
+			c.Sizes = append(c.Sizes, rapid.SampledFrom([]int{0, 1, 1, 2, 8, 512, 36000}).Draw(t, "size"))
+		}
+		return c
+	}})
+
 func TestC08(t *testing.T) {
 	propTest(t, "C08", func(ev *Ev) {
 		ev.Rule("one kind per family of entry points, inputs structured first and mutated second: (strings) address classes of C02, "+
@@ -947,7 +1060,7 @@ func TestC08(t *testing.T) {
 			"flag bytes; (gcs) FromBytes/FromNBytes with declared N up to 2^26 over 0..64 data bytes, P 0..255, M 0..2^40 -> "+
 			"Match/MatchAny/ZipMatchAny/HashMatchAny; (json) grammar producing heterogeneous arrays, nesting to depth 200, nulls, "+
 			"64-hex strings, numbers in string position, truncated documents -> jsonpb.Unmarshal/UnmarshalNext into five message "+
-			"types. Oracle: no panic; a call slower than 10 s twice is a hang; bytes allocated (TotalAlloc delta) <= 2 MiB + "+
+			"types; (filterload-storm) one goroutine re-loads / clears the filter with messages of 1..36000 bytes while 2..8 others match and insert (no panic in any of them). Oracle: no panic; a call slower than 10 s twice is a hang; bytes allocated (TotalAlloc delta) <= 2 MiB + "+
 			"8 KiB per input byte. Non-trivial = the input passed the outer validation layer of some entry point.",
 			"allocation inside bchd's wire decoder by declared input/output/transaction counts is a listed known finding (wire-prealloc) with an allowance of 4 GiB (29.8M declared outputs x 112 bytes)",
 			"'at most quadratic time' is only checked as: no call on an input <= 16 KiB takes more than 10 s twice")
@@ -981,8 +1094,9 @@ func TestC08(t *testing.T) {
 			kC08Wire.One(ev, c08Bytes{B: append(make([]byte, 80), 0), Origin: "valid-block"}) // block without transactions
 		}
 		kC08Scan.Run(t, ev, perShard(pick(600, 30000)))
+		kC08Storm.Run(t, ev, perShard(pick(40, 1200)))
 		ev.requireClasses("C08:str-origin=short-cashaddr", "C08:str-passed-outer-layer", "C08:wire-parsed",
 			"C08:filterload-empty-filter-with-hash-funcs", "C08:filterload-via-wire", "C08:merkle-via-wire",
-			"C08:gcs-declared-count-far-above-data", "C08:json-valid", "C08:json-unmarshalled", "C08:scan-deep-spend-graph")
+			"C08:gcs-declared-count-far-above-data", "C08:json-valid", "C08:json-unmarshalled", "C08:scan-deep-spend-graph", "C08:filterload-storm")
 	})
 }
